@@ -291,7 +291,7 @@ def evaluate(w):
     else:
         cur = w.fs.files.get(t['path'])
         cur = bytes(cur) if cur is not None else None
-        temps = [x for x in w.fs.files if x.startswith(t['path'] + '.')]
+        temps = w.fs.temps_of(t['path'])
         if temps and not any(fr['spec']['site'] == 'fs' and fr['spec'].get('op') == 'remove'
                              for fr in w.faults.fired):
             w.violation('C06', 'temp-left',
@@ -390,7 +390,7 @@ def generate(prop, seed):
                                'at': [rng.randint(0, size + 1)]})
         elif r < 0.6 or prop == 'C05' and r < 0.85:
             if ranged:
-                kind = rng.choice(['create', 'part', 'part', 'complete', 'read'])
+                kind = rng.choice(['create', 'part', 'part', 'complete', 'read', 'stat'])
                 if kind == 'create':
                     faults.append({'site': 's3', 'op': 'create_multipart_upload', 'key': 'k0',
                                    'exc': 'client', 'when': rng.choice(['before', 'after'])})
@@ -401,6 +401,11 @@ def generate(prop, seed):
                 elif kind == 'complete':
                     faults.append({'site': 's3', 'op': 'complete_multipart_upload', 'key': 'k0',
                                    'exc': 'client', 'when': rng.choice(['before', 'after'])})
+                elif kind == 'stat':
+                    # the k-th size query of the source file fails (it may have
+                    # been removed or become unreadable meanwhile)
+                    faults.append({'site': 'fs', 'op': 'getsize', 'path': '/d/lup0',
+                                   'nth': rng.randint(0, 2), 'exc': rng.choice(['oserror', 'eio'])})
                 else:
                     faults.append({'site': 'fs', 'op': 'read', 'path': '/d/lup0',
                                    'nth': rng.randint(0, 3), 'exc': 'oserror'})
